@@ -519,6 +519,16 @@ func c01Run(c *Ctx, i int, cs *c01Case) {
 		convertInt64Value(jd.Elem(), 0)
 		if int64ModelOverflow {
 			jerr = fmt.Errorf("number out of float64 range inside interface{} (UseInt64 model: encoding/json without UseNumber reports a range error)")
+		} else if hasOverflowFloat(cs.doc) {
+			// the model looks at the final value only; an overflowing literal stored into an interface{}
+			// that a later duplicate key overwrote is a (kept) range error for encoding/json without
+			// UseNumber, and sonic's UseInt64 stores such literals as float64 just the same
+			plain := newDst(cs)
+			if e := json.Unmarshal([]byte(cs.doc), plain.Interface()); e != nil {
+				if te, ok := e.(*json.UnmarshalTypeError); ok && strings.HasPrefix(te.Value, "number") {
+					jerr = fmt.Errorf("UseInt64 model: encoding/json without UseNumber reports %v", e)
+				}
+			}
 		}
 	}
 	detail := func() map[string]interface{} {
